@@ -341,11 +341,13 @@ TablesOK(d, fmt, obs, dev) ==
    A typed data cell is named by its kind; the observation is a record
      [k |-> "num", n2 |-> 2 * value]  (numbers, exact for multiples of 0.5)   [k |-> "bool", b |-> BOOLEAN]
      [k |-> "str", s |-> text]        [k |-> "ids", v |-> token ids]          [k |-> "other", s |-> repr]
-   The writer puts: n = 7, nf = 1.5, b = TRUE, d = 2024-01-02T03:04:05, date = 2024-01-02, t = 03:04:05,
+   The writer puts: n = 7, nf = 1.5, z = 0, b = TRUE, bf = FALSE, d = 2024-01-02T03:04:05, date = 2024-01-02, t = 03:04:05,
    e = #DIV/0! (error value), f = formula with cached result 2.5, s = one token, empty = nothing.       *)
 TypedAcceptable(kind, oc) ==
     CASE kind = "n"     -> oc.k = "num" /\ oc.n2 = 14
       [] kind = "nf"    -> oc.k = "num" /\ oc.n2 = 3
+      [] kind = "z"     -> oc.k = "num" /\ oc.n2 = 0                                  \* a zero is a value, not an empty cell
+      [] kind = "bf"    -> oc.k = "bool" /\ oc.b = FALSE
       [] kind = "b"     -> oc.k = "bool" /\ oc.b = TRUE
       [] kind = "d"     -> oc.k = "str" /\ oc.s = "2024-01-02T03:04:05"              \* dates as ISO strings
       [] kind = "date"  -> oc.k = "str" /\ oc.s \in {"2024-01-02", "2024-01-02T00:00:00"}
